@@ -33,6 +33,8 @@ def _validate_group(ctx, evs, path, label, gi):
                 break
         if ev["e"] == "child":
             kind = "crash" if ev["status"] != "ok" else "?"
+        elif ev["e"] == "quiesce" and ev.get("live", 0) == 0 and (ev.get("maps", 0) != 0 or ev.get("fds", 0) != 0):
+            kind = "libc-leak"      # (same attribution: the call in which the refusal happened) - renamed below
         elif ev["e"] == "quiesce":
             kind = "leak"
         elif ev["e"] == "lsan":
@@ -53,6 +55,8 @@ def _validate_group(ctx, evs, path, label, gi):
                 elif e["e"] in ("alloc", "realloc") and e["ok"] == 0:
                     f = cur
                     break
+        if kind == "libc-leak" and ev["e"] == "quiesce":
+            kind = "mapping-or-descriptor-leak"
         if kind == "leak":
             livef, cur = {}, "?"
             s0 = max([x for x in range(i) if chunk[x]["e"] == "child"] or [-1]) + 1
